@@ -24,6 +24,9 @@ cdir = wt if crate in (".", "rten") else os.path.join(wt, crate)
 pkg = "rten" if crate in (".", "rten") else crate
 meta = {"property": prop, "variant": var, "crate": pkg, "ran": []}
 demo = os.path.join(vdir, "demo.rs")
+if os.environ.get("SEED_NO_DEMO") == "1":
+    demo = "/nonexistent"   # demo is not an integration test (e.g. needs crate-private items): the author's logs are kept instead
+    meta["ran"].append("demonstration not re-run by the lead (unit-test-module demo using crate-private items); see with_change.log / without_change.log written by its author")
 res = {}
 if os.path.exists(demo):
     os.makedirs(os.path.join(cdir, "tests"), exist_ok=True)
